@@ -440,6 +440,13 @@ def it_next_back(I, itp):
             it.f[1] = I.binop("Sub", b, 1, ty)
             return some(it.f[1])
         return none()
+    if t == "Chain":
+        r = it_next_back(I, Ptr(Cell(it), (1,)))
+        if r.idx == 1: return r
+        if it.f[0] is None: return r
+        return it_next_back(I, Ptr(Cell(it), (0,)))
+    if t == "Enumerate":
+        raise Unsupported("next_back() of Enumerate")
     f = I.P.lookup(f"<{t} as DoubleEndedIterator>::next_back")
     if f is not None: return I.run(f, [itp])
     raise Unsupported("next_back() of iterator " + t)
@@ -494,8 +501,21 @@ _adapt("take_while", lambda I, it, f: Agg([it, f, False], "TakeWhile"))
 _adapt("filter", lambda I, it, f: Agg([it, f], "Filter"))
 _adapt("enumerate", lambda I, it: Agg([it, 0], "Enumerate"))
 _adapt("peekable", lambda I, it: Agg([it, none()], "Peekable"))
-_adapt("chain", lambda I, it, o: Agg([it, o], "Chain"))
-_adapt("zip", lambda I, it, o: Agg([it, o], "Zip"))
+def _as_iter(I, o):
+    """the argument of zip / chain is an IntoIterator: a slice / Vec / Option value becomes its iterator"""
+    u = unwrap_ptr(o)
+    if type(o) is SliceRef: return mk_slice_iter(o)
+    if type(o) is VecObj: return Agg([o, 0], "ListIter")
+    if type(u) is Ptr:
+        v = I.deref(u)
+        if type(v) is VecObj: return mk_slice_iter(SliceRef(v, 0, len(v.f)))
+        if type(v) is SliceRef: return mk_slice_iter(v)
+    if type(o) is Enum and o.ty == "Option": return Agg([VecObj([o.f[0]] if o.idx == 1 else []), 0], "ListIter")
+    return o
+
+
+_adapt("chain", lambda I, it, o: Agg([it, _as_iter(I, o)], "Chain"))
+_adapt("zip", lambda I, it, o: Agg([it, _as_iter(I, o)], "Zip"))
 _adapt("by_ref", lambda I, it: it)
 _adapt("filter_map", lambda I, it, f: Agg([it, f], "FilterMap"))
 _adapt("flat_map", lambda I, it, f: Agg([it, f, None], "FlatMap"))
@@ -564,6 +584,46 @@ def _position(I, itp, f):
 
 
 _consuming("position", _position)
+
+
+def _rposition(I, itp, f):
+    """last index whose element satisfies f (ExactSizeIterator + DoubleEndedIterator): scans from the back"""
+    it = I.deref(itp)
+    items = iter_to_list(I, it if type(it) is not Ptr else itp)
+    for k in range(len(items) - 1, -1, -1):
+        if I.W.branch(I.call_closure(f, tup(items[k]))): return some(k)
+    return none()
+
+
+_consuming("rposition", _rposition)
+
+
+def _rfind(I, itp, f):
+    while True:
+        r = it_next_back(I, itp)
+        if r.idx == 0: return r
+        if I.W.branch(I.call_closure(f, tup(Ptr(Cell(r), (0,))))): return r
+
+
+_consuming("rfind", _rfind)
+
+
+def _minmax(which):
+    def g(I, it):
+        l = iter_to_list(I, it)
+        if not l: return none()
+        best = l[0]
+        for x in l[1:]:
+            a, b = I.deref(x) if type(unwrap_ptr(x)) is Ptr else x, I.deref(best) if type(unwrap_ptr(best)) is Ptr else best
+            lt = I.binop("Lt", a, b, "usize")
+            if I.W.branch(lt if which == "min" else I.binop("Ge", a, b, "usize")): best = x
+        return some(best)
+    return g
+
+
+_consuming("min", _minmax("min"))
+_consuming("max", _minmax("max"))
+_consuming("sum", lambda I, it: (lambda l: __import__("functools").reduce(lambda a, b: I.binop("Add", a, (I.deref(b) if type(unwrap_ptr(b)) is Ptr else b), "usize"), l, 0))(iter_to_list(I, it)))
 
 
 @summary("Peekable::peek", "Peekable::peek_mut")
